@@ -22,8 +22,8 @@ ANCHORS = [(_SER, "json_serialize_values_orders"), (_SER, "json_deserialize_valu
            ("AutoCarver/carvers/base_carver.py", "load_carver"), ("AutoCarver/carvers/base_carver.py", "BaseCarver.to_json")]
 DECIDING_ANCHORS = [(_SER, "json_deserialize_values_orders"), ("AutoCarver/carvers/base_carver.py", "load_carver")]
 N = {"quick": 500, "thorough": 10000}
-REQUIRED_COUNTERS = {"quick": {"round_trips": 350, "frames_compared": 3000, "carver_round_trips": 100},
-                     "thorough": {"round_trips": 7000, "frames_compared": 60000, "carver_round_trips": 2000}}
+REQUIRED_COUNTERS = {"quick": {"round_trips": 350, "frames_compared": 3000, "carver_round_trips": 100, "edits_before_save": 40},
+                     "thorough": {"round_trips": 7000, "frames_compared": 60000, "carver_round_trips": 2000, "edits_before_save": 800}}
 
 
 def n_cases(tier):
@@ -73,6 +73,26 @@ def run_case(tier, seed, i):
         return {"status": "skip", "nontrivial": False, "tags": tags + ["fit_" + ("assertion" if common.is_assertion(e) else "internal_error:" + common.exc_name(e))], "counters": counters, "sample": sample}
     viols = []
     key = common.case_hash(case, which)
+    # manually edited groups (valid update_discretizer calls, as in C17) before saving
+    edits = []
+    if which == "carver" and case.kind != "multiclass" and obj.features and rng.random() < 0.5:
+        from . import c17
+        for _ in range(int(rng.integers(1, 3))):
+            cands = c17.candidate_edits(case, obj, rng)
+            if not cands:
+                break
+            kinds = sorted({c[5] for c in cands})
+            kind = gen.pick(rng, kinds)
+            pool = [c for c in cands if c[5] == kind]
+            desc, f, mode, discarded, kept, kind = pool[int(rng.integers(len(pool)))]
+            _, ee = common.guarded(obj.update_discretizer, f, mode, discarded, kept)
+            if ee is None:
+                edits.append(desc)
+                counters["edits_before_save"] = counters.get("edits_before_save", 0) + 1
+        if edits:
+            tags.append("edited")
+            sample["edits"] = edits
+            key = common.case_hash(case, which + "|".join(edits))
     nontrivial = any(len(obj.values_orders[f]) >= 2 for f in obj.features)
 
     def done():
